@@ -43,6 +43,7 @@ type isoCase struct {
 	VolID     string `json:"volume_identifier"`
 	Blocksize int64  `json:"blocksize"`
 	Start     int64  `json:"start"`
+	OSFile    bool   `json:"on_os_file,omitempty"` // the image is finalized onto a regular file, not the in-memory device
 	Desc      any    `json:"tree"`
 }
 
@@ -234,7 +235,16 @@ func runISOCase(c *isoCase, t *treeSpec) (sig, msg, outcome string) {
 	if c.Blocksize != 2048 {
 		tag += "|bs>2048"
 	}
-	img, err := buildISO(t, opts, c.Blocksize, c.Start)
+	var img *isoImage
+	var err error
+	if c.OSFile {
+		img, err = buildISOOnFile(t, opts, c.Blocksize, c.Start)
+		if err != nil && strings.HasPrefix(err.Error(), "OUTSIDE-RANGE") {
+			return "finalize|os-file|bytes-changed-outside-the-range", err.Error(), "invalid"
+		}
+	} else {
+		img, err = buildISO(t, opts, c.Blocksize, c.Start)
+	}
 	if err != nil {
 		if strings.Contains(err.Error(), "panic") {
 			return "finalize|" + tag + "|" + firstWords(err.Error()), "Finalize panicked: " + err.Error(), "panic"
@@ -494,6 +504,22 @@ func C06(r *ev.Run) {
 			}
 		}
 	}
+	// the same on a regular file of the operating system (every 11th tree, every option mode, both start offsets)
+	for ti := range trees {
+		if ti%11 != 3 && ti < len(trees)-4 {
+			continue
+		}
+		if len(trees[ti].Dirs) >= 8 || len(trees[ti].Files) > 64 {
+			continue
+		}
+		for _, rr := range []bool{false, true} {
+			for _, jo := range []bool{false, true} {
+				for _, start := range []int64{0, 1 << 20} {
+					cases = append(cases, isoCase{Tree: ti, Tier: r.Tier, RockRidge: rr, Joliet: jo, Blocksize: 2048, Start: start, OSFile: true})
+				}
+			}
+		}
+	}
 	outcomes := newDistinct()
 	ok := newDistinct()
 	done := parallel(len(cases), r.OutOfTime, func(i int) {
@@ -501,7 +527,7 @@ func C06(r *ev.Run) {
 		sig, msg, out := runISOCase(c, trees[c.Tree])
 		outcomes.add(out)
 		if out == "ok" {
-			ok.add(fmt.Sprintf("%d|%v|%v|%v|%d|%d", c.Tree, c.RockRidge, c.Joliet, c.Deep, c.Blocksize, c.Start))
+			ok.add(fmt.Sprintf("%d|%v|%v|%v|%d|%d|%v", c.Tree, c.RockRidge, c.Joliet, c.Deep, c.Blocksize, c.Start, c.OSFile))
 		}
 		if sig != "" {
 			c.Desc = trees[c.Tree].describe()
@@ -533,7 +559,7 @@ func C06(r *ev.Run) {
 	r.Set("distinct_nontrivial", int64(ok.n()))
 	r.Set("trees", int64(len(trees)))
 	r.Set("distinct_outcomes", outcomes.snapshot())
-	r.Set("rule", "trees: every ordered forest with <= 4 nodes and height <= 3 (a node is a file or a directory) x name rotations over {a, A.TXT, readme.md, longfilename1.txt, longfilename2.txt, ü.txt} x size rotations over {0,1,2047,2048,2049}; plus fixed shapes (directory chains of depth 7/8/9, 300 entries in one directory, a 3 MiB file, 2 and 11 names colliding after 8.3 truncation, sector-multiple files next to sub-directories, directories of 40-43 entries around an exact sector fit); x {plain, RockRidge, Joliet, both} x block size {2048,4096,8192} x start {0, 1 MiB} x volume identifier; non-trivial = distinct (tree, options) pairs that Finalize accepted and that were compared through iso9660.Read+WalkDir+ReadFile and through the independent PVD walker")
+	r.Set("rule", "trees: every ordered forest with <= 4 nodes and height <= 3 (a node is a file or a directory) x name rotations over {a, A.TXT, readme.md, longfilename1.txt, longfilename2.txt, ü.txt} x size rotations over {0,1,2047,2048,2049}; plus fixed shapes (directory chains of depth 7/8/9, 300 entries in one directory, a 3 MiB file, 2 and 11 names colliding after 8.3 truncation, sector-multiple files next to sub-directories, directories of 40-43 entries around an exact sector fit); x {plain, RockRidge, Joliet, both} x block size {2048,4096,8192} x start {0, 1 MiB} x volume identifier; a selection of the trees also finalized onto a regular OS file instead of the in-memory device (bytes outside the range compared); non-trivial = distinct (tree, options) pairs that Finalize accepted and that were compared through iso9660.Read+WalkDir+ReadFile and through the independent PVD walker")
 	r.Set("exhaustive", done == len(cases))
 	r.Assume("isock (independent ECMA-119 PVD/directory-record reader) defines what the image contains")
 }
